@@ -258,8 +258,8 @@ impl MerkleTree {
                 .iter()
                 .position(|root| root.index == parent.index);
             if let Some(r) = r {
-                for i in 0..r {
-                    tree_offset += self.roots[i].length;
+                for root in changeset.roots.iter().take(r) {
+                    tree_offset += root.length;
                 }
                 return Ok(Either::Right(tree_offset));
             }
